@@ -4,7 +4,7 @@
 P="$1"; shift
 cd /repo || exit 3
 if [ -n "$(git status --porcelain --untracked-files=no)" ]; then echo "repo dirty, refusing"; exit 3; fi
-git apply "$P" || { echo "patch does not apply"; exit 3; }
+git apply "$P" 2>/dev/null || git apply -C1 "$P" || { echo "patch does not apply"; exit 3; }
 for id in "$@"; do
   (cd /verif && ./check "$id" --no-evidence 2>&1 | grep -E "VIOLATION|ANALYSIS-ERROR|\[C[0-9]+-R|new violation" | head -12)
 done
